@@ -1759,6 +1759,10 @@ func (n *node) unregisterProcess(p *process, reason error) {
 	n.RouteTerminatePID(p.pid, reason)
 	lib.VerifPoint("unreg.pid.drained", p.pid.ID)
 
+	// drop the links and monitors this process created: a terminated process
+	// must not stay in any relation as a consumer
+	n.targetManager.CleanupConsumer(p.pid)
+
 	if p.application != system.Name {
 		// do not count system app processes
 		n.waitprocesses.Done()
